@@ -1129,14 +1129,32 @@ Definition fld_item (f : fld) : item :=
   | FElg lx lo mx mo => mkItem elg_domain (pt_bytes lx lo ++ pt_bytes mx mo)
   end.
 
-Lemma enc_fld f : enc_hval (fld_hval f) = Some (fld_item f).
-Proof. destruct f; reflexivity. Qed.
+(* Pedersen parameters are written only when N, S, T fit 2048 bits (pedersen.Parameters.WriteTo refuses them
+   otherwise), which is part of [fld_wf] *)
+Lemma fld_ped_in_range z : (0 <=? z)%Z && (z <? 2 ^ 2048)%Z = true -> lt_pow2 (Z.to_N z) 2048 = true.
+Proof.
+  intro H. apply andb_true_iff in H as [H0 H1]. apply Z.leb_le in H0. apply Z.ltb_lt in H1.
+  unfold lt_pow2. apply N.eqb_eq. rewrite N.shiftr_div_pow2. apply N.div_small.
+  apply N2Z.inj_lt. rewrite Z2N.id by assumption. rewrite N2Z.inj_pow. exact H1.
+Qed.
 
-Lemma enc_all_flds l : enc_all (map fld_hval l) = Some (map fld_item l).
-Proof. induction l as [|f l IH]; [reflexivity|]. cbn [map enc_all]. rewrite enc_fld, IH. reflexivity. Qed.
+Lemma enc_fld f : fld_wf f = true -> enc_hval (fld_hval f) = Some (fld_item f).
+Proof.
+  destruct f; try reflexivity. intro W. cbn [fld_wf] in W.
+  repeat (apply andb_true_iff in W as [W ?]).
+  cbn [fld_hval enc_hval fld_item]. unfold pedersen_data_opt.
+  rewrite !fld_ped_in_range by (apply andb_true_iff; split; assumption). reflexivity.
+Qed.
 
-Lemma write_any_flds st l : write_any st (map fld_hval l) = (stream st (map fld_item l), true).
-Proof. apply write_any_ok. apply enc_all_flds. Qed.
+Lemma enc_all_flds l : forallb fld_wf l = true -> enc_all (map fld_hval l) = Some (map fld_item l).
+Proof.
+  induction l as [|f l IH]; [reflexivity|]. intro W. cbn [forallb] in W. apply andb_true_iff in W as [Wf W].
+  cbn [map enc_all]. rewrite (enc_fld f Wf), (IH W). reflexivity.
+Qed.
+
+Lemma write_any_flds st l : forallb fld_wf l = true ->
+  write_any st (map fld_hval l) = (stream st (map fld_item l), true).
+Proof. intro W. apply write_any_ok. now apply enc_all_flds. Qed.
 
 (* ---- byte lengths ---- *)
 Lemma byte_len_bound n k : (n < 2 ^ (8 * N.of_nat k))%N -> (byte_len n <= k)%nat.
@@ -1336,14 +1354,14 @@ Qed.
 Theorem flds_stream_inj st l1 l2 : forallb fld_wf l1 = true -> forallb fld_wf l2 = true ->
   fst (write_any st (map fld_hval l1)) = fst (write_any st (map fld_hval l2)) -> l1 = l2.
 Proof.
-  intros W1 W2 E. rewrite !write_any_flds in E. cbn [fst] in E.
+  intros W1 W2 E. rewrite (write_any_flds st l1 W1), (write_any_flds st l2 W2) in E. cbn [fst] in E.
   apply stream_inj in E; try (apply forallb_wf_items; assumption).
   apply map_fld_item_inj; assumption.
 Qed.
 
 (* and write_any never fails on them *)
-Lemma flds_write_ok st l : snd (write_any st (map fld_hval l)) = true.
-Proof. rewrite write_any_flds. reflexivity. Qed.
+Lemma flds_write_ok st l : forallb fld_wf l = true -> snd (write_any st (map fld_hval l)) = true.
+Proof. intro W. rewrite write_any_flds by assumption. reflexivity. Qed.
 
 (* ---- per system: the challenge input is an injective function of (every public field, every commitment field) ---- *)
 Lemma FNatN_inj n v n' v' : FNatN n v = FNatN n' v' -> v = v'.
